@@ -229,7 +229,24 @@ func interopLegA(r *core.Run, proto *spec.Proto, n int, opt spec.GenOpt) {
 		}
 		fresh := ctor[site]()
 		var err error
-		if p := r.Call(site+".IDecode", func() { err = fresh.IDecode(frames[i]) }); p != nil {
+		if (i+int(r.Cfg.Index))%2 == 1 {
+			// a gateway does not know the type in advance: it asks the package's dispatcher
+			var dp protocol.PDU
+			if p := r.Call("Decode"+proto.Name, func() { dp, err = dispatcher[proto.Name](frames[i]) }); p != nil {
+				r.Fail("C01", "panic", site, "dispatch/"+p.Kind, "the dispatcher panicked on the package's own encoding: %s at %s", p.Value, p.Frame)
+				continue
+			}
+			if err != nil || dp == nil {
+				r.Fail("C01", "decode-error", site, "own-encoding-dispatched", "the dispatcher refused the encoder's own output: %v", err)
+				continue
+			}
+			if typeSite(dp) != site {
+				r.Fail("C01", "decode-error", site, "dispatched-as-other-type", "the dispatcher decoded the encoder's own output as %s", typeSite(dp))
+				continue
+			}
+			fresh = dp
+			r.Probe("roundtrip_via_dispatcher")
+		} else if p := r.Call(site+".IDecode", func() { err = fresh.IDecode(frames[i]) }); p != nil {
 			r.Fail("C01", "panic", site, "IDecode/"+p.Kind, "IDecode of its own encoding panicked: %s at %s", p.Value, p.Frame)
 			continue
 		}
